@@ -15,9 +15,12 @@ try:
         meta['applies_to_repo_head'] = False
     else:
         env = dict(os.environ, VERIF_REPO=SWT)
+        LANE = '/tmp/verif_lane_%d' % os.getpid()  # private copy: coq/gen is rewritten from the tree a check is pointed at
+        subprocess.run(['rsync', '-a', '--delete', '--exclude', '.git', '--exclude', '_work', '--exclude', 'replays', '--exclude', 'seeded',
+                        '/verif/', LANE + '/'], check=True)
         for pr in props:
             t0 = time.time()
-            r = subprocess.run(['./check', pr], cwd='/verif', env=env, stdout=subprocess.PIPE, stderr=subprocess.STDOUT, text=True, timeout=3600)
+            r = subprocess.run(['./check', pr], cwd=LANE, env=env, stdout=subprocess.PIPE, stderr=subprocess.STDOUT, text=True, timeout=3600)
             viol = [l for l in r.stdout.splitlines() if l.startswith('VIOLATION') or 'obligation FAILED' in l]
             old = meta.get('checks', {}).get(pr)
             if old is not None:
@@ -26,4 +29,5 @@ try:
             print(name, pr, 'exit', r.returncode, [v[:140] for v in viol][:3])
 finally:
     subprocess.run(['git', '-C', '/repo', 'worktree', 'remove', '--force', SWT])
+    subprocess.run(['rm', '-rf', '/tmp/verif_lane_%d' % os.getpid()])
 json.dump(meta, open(f'{dst}/meta.json', 'w'), indent=1)
